@@ -276,9 +276,11 @@ impl UnverifiedBiscuit {
             .map_err(error::Token::Format)?
         };
 
-        // we have to add the entire list of public keys here because
-        // they are used to validate 3rd party tokens
-        block.symbols.public_keys = self.symbols.public_keys.clone();
+        // a first-party block refers to the token's key table; a third-party block only to
+        // the keys it declares itself
+        if block.external_key.is_none() {
+            block.symbols.public_keys = self.symbols.public_keys.clone();
+        }
         Ok(block)
     }
 
